@@ -39,6 +39,8 @@ def corpus(ctx, base, shapes):
         if not quick:
             jobs.append(pc.feature_entry(base, name + "-typesonly", f, flags={"builders": False, "converters": False, "api_reference": False}))
     jobs.append(pc.sink_entry(base))
+    for name, make in sorted(pc.GROWTH_ENTRIES.items()):      # entries built to reach more map-ranging sites with >= 2 keys
+        jobs.append(make(base))
     jobs += pc.testdata_entries(base, quick, ctx.seed)
     return jobs
 
@@ -47,6 +49,8 @@ def regenerate(ctx, base, entry):
     """Rebuild one corpus entry from the description stored in a replay file."""
     if entry.get("source") == "sink":
         return pc.sink_entry(base)
+    if entry.get("source") in pc.GROWTH_ENTRIES:
+        return pc.GROWTH_ENTRIES[entry["source"]](base)
     if entry.get("source"):
         for j in pc.testdata_entries(base, False, 0):
             if j["id"] == entry["id"]:
@@ -171,9 +175,12 @@ def run(ctx):
         groups.setdefault((f["site"], f["class"]), []).append(f)
     for (site, cls), fs in sorted(groups.items()):
         annotated = [by_id[f["job"]] for f in fs if by_id[f["job"]].get("source") in (None, "sink")]
+        special = sorted({by_id[f["job"]]["source"] for f in fs if by_id[f["job"]].get("source") in pc.GROWTH_ENTRIES})
         if annotated:
             inter = set.intersection(*[active(j) for j in annotated])
             witness = "needs-" + "+".join(sorted(inter)) if inter else "any-input"
+        elif special:
+            witness = "corpus-" + "+".join(special)
         else:
             witness = "repository-schemas"
         sig = "C03/%s/%s/%s" % (site, cls, witness)
